@@ -347,7 +347,7 @@ class HttpDataTransform:
                 if isinstance(step_val, bytes):
                     step_val = len(step_val)
                 assert isinstance(step_val, int)
-                data = data[:-step_val]
+                data = data[: len(data) - step_val]
             elif step == "prepend":
                 if isinstance(step_val, bytes):
                     step_val = len(step_val)
